@@ -196,7 +196,8 @@ def coq_make(targets=None, timeout=3000):
         if not os.path.exists(os.path.join(COQ, "Makefile")) or \
                 os.path.getmtime(os.path.join(COQ, "Makefile")) < os.path.getmtime(os.path.join(COQ, "_CoqProject")):
             sh("coq_makefile -f _CoqProject -o Makefile", cwd=COQ, check=True)
-        cmd = ["make", "-k", "-j", str(NCPU)] + (targets or [])
+        # every coqc call gets a time limit and an address-space limit so that one runaway proof cannot stall a check
+        cmd = "ulimit -v 12000000; make -k -j %d COQC='timeout 900 coqc' %s" % (NCPU, " ".join(targets or []))
         rc, out = sh(cmd, cwd=COQ, timeout=timeout)
         return rc == 0, out
 
